@@ -32,13 +32,13 @@ def plan(tier, seed):
             specs.append(dict(kind='all', names=n4, order=o, sample=None,
                               hashseed=k))
     else:
-        for k, o in enumerate(dict.fromkeys(orders(n4, tier, seed, 4))):
-            specs.append(dict(kind='all', names=n4, order=o, sample=2000,
+        for k, o in enumerate(dict.fromkeys(orders(n4, tier, seed, 6))):
+            specs.append(dict(kind='all', names=n4, order=o, sample=8000,
                               sub=k, hashseed=k))
-    nh = 24 if tier == 'thorough' else 6
+    nh = 24 if tier == 'thorough' else 12
     for k in range(nh):
         specs.append(dict(kind='history', sub=k, n=3 + k % 4,
-                          steps=1500 if tier == 'thorough' else 300,
+                          steps=1500 if tier == 'thorough' else 600,
                           auto=(k % 3 == 1), hashseed=k))
     meta = dict(
         rule=RULE,
